@@ -1423,7 +1423,7 @@ Proof. exact GcThreadThms.stuck_entry. Qed.
 Print Assumptions C05_gcthread_stuck_entry.
 
 (* (d) OBSERVATION (outside the property texts): "automatic collection eventually runs again" is false of the code: after a sweep that ends at or above `gc_lwm` the state stays `Triggered` although the count falls to 0 and reaches `gc_hwm` again; control run next to it *)
-Theorem C05_gcthread_auto_gc_off :
+Theorem C05_gcthread_auto_gc_resumes_refuted :
   GcThread.run GcThreadExamples.gx_cfg (GcThread.init GcThreadExamples.gx_cfg 1) GcThreadExamples.gx_sched_off = Some GcThreadExamples.gx_off_end /\
   GcThreadProofs.reachable GcThreadExamples.gx_cfg GcThreadExamples.gx_off_end /\
   (* the count was 0 < gc_lwm in between and is 195 >= gc_hwm now *)
@@ -1437,16 +1437,16 @@ Theorem C05_gcthread_auto_gc_off :
   (* the control GcThread.run: the collector is woken a second time *)
   GcThread.run GcThreadExamples.gx_cfg (GcThread.init GcThreadExamples.gx_cfg 1) GcThreadExamples.gx_sched_on = Some GcThreadExamples.gx_on_end /\ GcThread.active GcThreadExamples.gx_on_end = true.
 Proof. exact GcThreadExamples.gx_auto_gc_off. Qed.
-Print Assumptions C05_gcthread_auto_gc_off.
+Print Assumptions C05_gcthread_auto_gc_resumes_refuted.
 
 (* (d) OBSERVATION: a trigger while the collector is not inside `wait` (before its first `wait`, or between epilogue and `wait`) is lost for good *)
-Theorem C05_gcthread_lost_wakeup :
+Theorem C05_gcthread_trigger_wakes_refuted :
   GcThread.run GcThreadExamples.gx_cfg (GcThread.init GcThreadExamples.gx_cfg 1) GcThreadExamples.gx_sched_lost = Some GcThreadExamples.gx_lost_end /\ GcThread.stuck GcThreadExamples.gx_lost_end = true /\
   (forall sched s', GcThread.run GcThreadExamples.gx_cfg GcThreadExamples.gx_lost_end sched = Some s' -> GcThread.g_gc s' = Alloc.GTriggered /\ GcThread.g_bgcount s' = 0%N) /\
   GcThread.run GcThreadExamples.gx_cfg (GcThread.init GcThreadExamples.gx_cfg 1) GcThreadExamples.gx_sched_lost2 = Some GcThreadExamples.gx_lost2_end /\ GcThread.stuck GcThreadExamples.gx_lost2_end = true /\
   (forall sched s', GcThread.run GcThreadExamples.gx_cfg GcThreadExamples.gx_lost2_end sched = Some s' -> GcThread.g_gc s' = Alloc.GTriggered /\ GcThread.g_bgcount s' = 1%N).
 Proof. exact GcThreadExamples.gx_lost_wakeup. Qed.
-Print Assumptions C05_gcthread_lost_wakeup.
+Print Assumptions C05_gcthread_trigger_wakes_refuted.
 
 (* (e) `Quit` is stored iff a handle is dropped that sees `strong_count == 2` *)
 Theorem C05_gcthread_quit_sent_iff : forall c s a s', GcThread.step c s a = Some s' -> GcThread.g_sig s = GcThread.SRun ->
@@ -1494,7 +1494,7 @@ Proof. exact GcThreadThms.asleep_forever. Qed.
 Print Assumptions C05_gcthread_asleep_forever.
 
 (* (e) OBSERVATION: the last handle dropped before the collector waits / while it collects: thread and store leak; control run *)
-Theorem C05_gcthread_missed_quit :
+Theorem C05_gcthread_quit_seen_refuted :
   GcThread.run GcThreadExamples.gx_cfg (GcThread.init GcThreadExamples.gx_cfg 0) GcThreadExamples.gx_sched_quit_early = Some GcThreadExamples.gx_quit_early_end /\
   GcThread.quit_missed GcThreadExamples.gx_quit_early_end = true /\
   (forall sched s', GcThread.run GcThreadExamples.gx_cfg GcThreadExamples.gx_quit_early_end sched = Some s' ->
@@ -1505,12 +1505,12 @@ Theorem C05_gcthread_missed_quit :
      GcThread.g_cpc s' = GcThread.CWaiting /\ GcThread.g_sig s' = GcThread.SQuit /\ GcThread.usable s' = 0) /\
   GcThread.run GcThreadExamples.gx_cfg (GcThread.init GcThreadExamples.gx_cfg 0) GcThreadExamples.gx_sched_quit_ok = Some GcThreadExamples.gx_quit_ok_end /\ GcThread.g_cpc GcThreadExamples.gx_quit_ok_end = GcThread.CExit.
 Proof. exact GcThreadExamples.gx_missed_quit. Qed.
-Print Assumptions C05_gcthread_missed_quit.
+Print Assumptions C05_gcthread_quit_seen_refuted.
 
 (* (e) OBSERVATION: two handles dropped concurrently both read `strong_count == 3`: `Quit` is never stored *)
-Theorem C05_gcthread_drop_race :
+Theorem C05_gcthread_drop_quit_refuted :
   GcThread.run GcThreadExamples.gx_cfg (GcThread.init GcThreadExamples.gx_cfg 0) GcThreadExamples.gx_sched_drop_race = Some GcThreadExamples.gx_drop_race_end /\
   (forall sched s', GcThread.run GcThreadExamples.gx_cfg GcThreadExamples.gx_drop_race_end sched = Some s' ->
      GcThread.g_cpc s' = GcThread.CWaiting /\ GcThread.g_sig s' = GcThread.SRun /\ GcThread.usable s' = 0).
 Proof. exact GcThreadExamples.gx_drop_race. Qed.
-Print Assumptions C05_gcthread_drop_race.
+Print Assumptions C05_gcthread_drop_quit_refuted.
